@@ -20,7 +20,8 @@ RULE = (
     "variable (also 2-D x and y without z), NaN/inf patterns incl. all-NaN "
     "series, optional y_err and colour variable c (with missing values of their own), multi-variable y, log "
     "axes, colors None/True/list, named colour maps (plain, reversed, log), "
-    "markers, legend/colorbar overrides, legend_marker_alpha, bins; plot "
+    "explicit colour limits (vmin only / vmax only / both), markers, "
+    "legend/colorbar overrides, legend_marker_alpha, bins; plot "
     "kinds lineplot, scatter, histogram, heatmap, auto_lineplot, "
     "auto_scatter, auto_histogram, auto_heatmap; backend Agg.  Oracle, read "
     "from the returned Figure: per Axes one Line2D / PathCollection per z "
@@ -210,6 +211,13 @@ def run_case(case):
                 extra["y_err"] = "ye"
             if case.get("c") and not multi:
                 extra["c"] = "cz" if kind == "lineplot" else "cc"
+            _LIMITS.clear()
+            if not multi and (case.get("c") or (
+                    case.get("colors") is True and
+                    not isinstance(zs[0], str))):
+                src = ds[extra["c"]].values if case.get("c") else zs
+                _LIMITS.update(colour_limits(case, src))
+                opts.update(_LIMITS)
             with under_test(kind):
                 fig = f(ds, xname, yarg, zarg, **extra, **opts)
             check_xy(case, ds, fig, kind, xname, multi, extra, opts)
@@ -292,11 +300,32 @@ def panels(case, ds, fig):
     return out
 
 
+_LIMITS = {}
+
+
+def colour_limits(case, values):
+    """Explicit colour limits asked for by the case (one-sided or both),
+    placed outside the data range."""
+    lim = case.get("limit")
+    out = {}
+    if not lim:
+        return out
+    v = np.asarray(values, dtype=float)
+    lo, hi = float(np.nanmin(v)), float(np.nanmax(v))
+    span = (hi - lo) or 1.0
+    if lim in ("vmin", "both"):
+        out["vmin"] = lo / 2 if case.get("colormap_log") else lo - span / 2
+    if lim in ("vmax", "both"):
+        out["vmax"] = hi * 2 if case.get("colormap_log") else hi + span / 4
+    return out
+
+
 def expected_norm(case, values):
     import matplotlib.colors as mcolors
     v = np.asarray(values, dtype=float)
     cls = mcolors.LogNorm if case.get("colormap_log") else mcolors.Normalize
-    return cls(vmin=float(np.nanmin(v)), vmax=float(np.nanmax(v)))
+    return cls(vmin=_LIMITS.get("vmin", float(np.nanmin(v))),
+               vmax=_LIMITS.get("vmax", float(np.nanmax(v))))
 
 
 def check_xy(case, ds, fig, kind, xname, multi, extra, opts):
@@ -583,6 +612,8 @@ def strategy(draw):
                 not case.get("multi_y"):
             case["c"] = True
             case["colors"] = None
+        case["limit"] = draw(st.sampled_from([None, None, "vmin", "vmax",
+                                              "both"]))
         if case.get("y_err") or (case.get("c") and kind == "scatter"):
             case["aux_nan"] = draw(st.sampled_from([0.0, 0.3]))
         if case.get("multi_y") and case["colors"] is True:
